@@ -94,6 +94,7 @@ func (c *ctx) unrelatedFrame(ack xsens.MessageIdentifier) []byte {
 }
 
 func (c *ctx) commandCases(kind string, n int) {
+	c.alignedExtendedAck(kind)
 	for i := 0; i < n; i++ {
 		var stream []byte
 		var ops []cop
@@ -171,6 +172,31 @@ func (c *ctx) commandCases(kind string, n int) {
 	}
 }
 
+// alignedExtendedAck: an extended-length acknowledge whose first five bytes are the last five of a completely filled
+// scanner buffer (4096 bytes: two maximal-ish unrelated frames of 2055 + 2036 bytes in front of it, one greedy read)
+func (c *ctx) alignedExtendedAck(kind string) {
+	for _, name := range []string{"GetOutputConfiguration", "GetCANOutputConfiguration"} {
+		for _, fill := range []int{4089, 4090, 4091, 4092} {
+			idx := 0
+			for i, t := range cmdTable {
+				if t.name == name {
+					idx = i
+				}
+			}
+			o, ack := c.command(idx)
+			var stream []byte
+			stream = append(stream, xsens.NewMessage(xsens.MessageIdentifier(0x3e), c.payload(2048))...) // 2055 bytes
+			stream = append(stream, xsens.NewMessage(xsens.MessageIdentifier(0x3e), c.payload(fill-2055-7))...)
+			payload := c.payload(256)
+			stream = append(stream, xsens.NewMessage(ack, payload)...)
+			stream = append(stream, c.smallFrame()...)
+			ops := []cop{o, {kind: "rawmsg"}, {kind: "msgid"}, {kind: "receive"}, {kind: "rawmsg"}, {kind: "receive"}}
+			c.emitClient(kind, stream, nil, io.EOF, false, nil, ops)
+			c.count("buffer-aligned-extended-acks")
+		}
+	}
+}
+
 // failure injection: the stream is cut at every offset (short streams) and the port fails there
 func (c *ctx) failureCases(kind string, nstreams int) {
 	for i := 0; i < nstreams; i++ {
@@ -233,6 +259,8 @@ func testdataStreams() [][]byte {
 
 func init() {
 	props["C03"] = func(c *ctx) {
+		// the decoded values themselves, against the reference decoding
+		c.codecViaClient(c.pick(400, 4000))
 		// measurement messages of supported packets, scanned completely / partially, with other traffic between
 		for i := 0; i < c.pick(150, 1500); i++ {
 			c.clientStreamCase("client", 1+c.rng.Intn(5), i%2 == 0)
@@ -320,6 +348,7 @@ func init() {
 		c.clientBigFrames("client")
 	}
 	props["C10"] = func(c *ctx) {
+		c.framingBoundary(0x36, 0x31)
 		c.failureCases("client10", c.pick(12, 120))
 		c.clientBigFrames("client10")
 		// a command in the middle of a receive sequence, with frames (its acknowledge included) already buffered by
